@@ -2,6 +2,8 @@ package main
 
 import (
 	"fmt"
+	"go/token"
+	"go/types"
 
 	"golang.org/x/tools/go/ssa"
 )
@@ -137,4 +139,63 @@ func checkC03(c *Ctx) {
 		})
 	}
 	_ = ssa.Value(nil)
+}
+
+// the rejection samplers of the matrix keep a 12-bit candidate exactly when it is below q
+func init() {
+	prev := registry["C03"]
+	registry["C03"] = func(c *Ctx) {
+		prev(c)
+		p := c.Prog("amd64")
+		if p == nil {
+			return
+		}
+		c.Clauses = append(c.Clauses, "C03.sample: the uniform samplers (scalar and four-way) store a 12-bit candidate equal to q-1 and do not store one equal to q (boundary of the rejection test, decided by constant propagation)")
+		pk := "pke/kyber/internal/common"
+		f := p.Func(pk, "Poly", "DeriveUniform")
+		cand := func(v int64) []ValAssume {
+			return []ValAssume{{Name: "candidate (12 bits)", Val: latInt(v), Match: func(x ssa.Value, in *ssa.Function) bool {
+				b, ok := x.(*ssa.BinOp)
+				if !ok || in != f || b.Op != token.AND {
+					return false
+				}
+				k, ok := b.Y.(*ssa.Const)
+				return ok && k.Value != nil && k.Value.ExactString() == "4095"
+			}}}
+		}
+		isCoeff := func(st *ssa.Store) bool {
+			ia, ok := st.Addr.(*ssa.IndexAddr)
+			if !ok || f == nil || len(f.Params) == 0 {
+				return false
+			}
+			base, _ := memRoot(ia.X)
+			return base == ssa.Value(f.Params[0])
+		}
+		c.storeReachUnder(p, "C03.sample", "a candidate equal to q is rejected", f, cand(3329), "store of a coefficient", isCoeff, false)
+		c.storeReachUnder(p, "C03.sample", "a candidate equal to q-1 is kept", f, cand(3328), "store of a coefficient", isCoeff, true)
+		fx := p.Func(pk, "", "PolyDeriveUniformX4")
+		candX := func(v int64) []ValAssume {
+			return []ValAssume{{Name: "candidate t[k]", Val: latInt(v), Match: func(x ssa.Value, in *ssa.Function) bool {
+				ld, ok := x.(*ssa.UnOp)
+				if !ok || in != fx || ld.Op != token.MUL {
+					return false
+				}
+				ia, ok := ld.X.(*ssa.IndexAddr)
+				if !ok {
+					return false
+				}
+				a, ok := ia.X.(*ssa.Alloc)
+				return ok && a.Type().String() == "*[16]uint16"
+			}}}
+		}
+		isCoeffX := func(st *ssa.Store) bool {
+			ia, ok := st.Addr.(*ssa.IndexAddr)
+			if !ok || fx == nil || len(fx.Params) == 0 {
+				return false
+			}
+			return ia.X.Type().String() == fx.Params[0].Type().(*types.Array).Elem().String()
+		}
+		c.storeReachUnder(p, "C03.sample", "four-way sampler: a candidate equal to q is rejected", fx, candX(3329), "store of a coefficient", isCoeffX, false)
+		c.storeReachUnder(p, "C03.sample", "four-way sampler: a candidate equal to q-1 is kept", fx, candX(3328), "store of a coefficient", isCoeffX, true)
+	}
 }
